@@ -121,7 +121,11 @@ class Generic(BaseModel):
     @classmethod
     def casting(cls, values):
         if isinstance(values, dict):
-            return {k: _Auxiliar.cast(v) for k, v in values.items()}
+            try:
+                return {k: _Auxiliar.cast(v) for k, v in values.items()}
+            except RecursionError:
+                # Reported as a validation error, like any other input the library can not model
+                raise ValueError("Property nested too deeply")
         raise ValueError(f"Not supported type: {type(values)}")
 
 
